@@ -226,10 +226,14 @@ static int spec_candidate(void)
  * expectations created oldest first, then `count` accepted calls to each, oldest first; small bounds */
 static _Bool spec_constructible(void)
 {
+  _Bool in_reported_all_active = 0;
+  for (int i = 0; i < N; i++) if (in_where[i] == 0 && in_reported[i]) in_reported_all_active = 1;
   _Bool link[N][2]; _Bool called[N];
   for (int i = 0; i < N; i++) { link[i][0] = in_K[i] >= 1; link[i][1] = in_K[i] >= 2; called[i] = 0; }
   for (int i = N - 1; i >= 0; i--) {
-    if (in_where[i] == 2 || in_reported[i] || in_max[i] > 4) return 0;
+    if (in_where[i] == 2 || in_max[i] > 4) return 0;
+    /* `reported` can be produced for all live expectations at once (one earlier no-match call lists them all) */
+    if (in_reported[i] != (in_where[i] == 0 && in_reported_all_active)) return 0;
     if (in_cnt[i] > 0) {
       for (int k = 0; k < 2; k++) if (k < in_K[i]) {
         if (!link[i][k]) return 0;
